@@ -921,7 +921,7 @@ func genSyncStorm(t *rapid.T) SyncStormPlan {
 	p := SyncStormPlan{Mode: rapid.SampledFrom([]string{"loadorstore", "loadanddelete", "nomatch", "watchable", "watchable"}).Draw(t, "mode")}
 	p.Setters = 1
 	if p.Mode == "watchable" {
-		p.Setters = rapid.SampledFrom([]int{1, 2, 3}).Draw(t, "setters")
+		p.Setters = rapid.SampledFrom([]int{1, 2, 2, 3, 4}).Draw(t, "setters")
 	}
 	if p.Mode == "loadorstore" || p.Mode == "loadanddelete" || p.Mode == "nomatch" {
 		p.Parties, p.Rounds = rapid.IntRange(3, 6).Draw(t, "parties"), rapid.IntRange(500, 2000).Draw(t, "rounds")
